@@ -26,7 +26,7 @@ TRUSTED_BASE = [
 ]
 ASSUMPTIONS = ["exact arithmetic; engines may differ on ties: only validity and cost are compared across engines"]
 RULE = ("random pairs x window x penalty x psi x inner_dist x ndim x site in {dtw.best_path from a random finite start "
-        "cell (exact comparison with the model), dtw.warping_path, dtw.warping_path_fast, warping_paths_fast(compact)+"
+        "cell (exact comparison with the model), dtw.warping_path (start cell and path exact vs the as-written model), dtw.warp, dtw_cc.warping_path_ndim, a stream of length-1/2 series with relaxations up to length+1, dtw.warping_path_fast, warping_paths_fast(compact)+"
         "best_path_compact, best_path on a C matrix, dtw_best_path_customstart via ctypes}; every returned path is "
         "checked for contiguity, unit steps, band, max_step, psi corners and recomputed cost == reported distance == "
         "model optimum")
